@@ -1,3 +1,5 @@
 fn main() {
+    // Verification hooks (/verif) are guarded by `--cfg mmtk_verif`; declare the cfg so it is a known name.
+    println!("cargo::rustc-check-cfg=cfg(mmtk_verif)");
     built::write_built_file().expect("Failed to acquire build-time information");
 }
